@@ -90,6 +90,22 @@ def _alarm(signum, frame):
 # ------------------------------------------------------------------------------------------------
 # records: [abs owner text, ttl, rdtype text, rdata text (absolute names)]
 # ------------------------------------------------------------------------------------------------
+_DIG = {}
+
+
+def digest(rd, origin):
+    """rd.to_digestable(origin), cached per rdata object (rdatas are immutable; the object is kept alive by the
+    cache entry so its id cannot be reused)"""
+    k = (id(rd), id(origin))
+    v = _DIG.get(k)
+    if v is None:
+        if len(_DIG) > 300000:
+            _DIG.clear()
+        v = (rd, rd.to_digestable(origin))
+        _DIG[k] = v
+    return v[1]
+
+
 def rclass(r):
     """class of a record: IN unless a fifth element says otherwise (wrong-class fault)"""
     return dns.rdataclass.from_text(r[4]) if len(r) > 4 else IN
@@ -106,6 +122,7 @@ class World:
         self.names = []  # canonical (lower-cased) names in the zone's relativity
         self.name_idx = {}
         self.rd_ids = {}
+        self.rdk = {}
         self.nidx(self.eff)
 
     def nidx(self, n: dns.name.Name) -> int:
@@ -119,14 +136,20 @@ class World:
 
     def rdkey(self, rdtype, covers, rd) -> str:
         """(type key, serial, body id) of an rdata as the model sees it"""
+        hit = self.rdk.get(id(rd))
+        if hit is not None:
+            return hit[1]
         tk = int(rdtype) + 65536 * int(covers)
         if rdtype == SOA:
             serial = rd.serial
             w = rd.replace(serial=0).to_digestable(self.origin)
         else:
             serial = 0
-            w = rd.to_digestable(self.origin)
+            w = digest(rd, self.origin)
         b = self.rd_ids.setdefault((tk, w), len(self.rd_ids))
+        if len(self.rdk) > 200000:
+            self.rdk.clear()
+        self.rdk[id(rd)] = (rd, (tk, f"{serial}.{b}"))  # (the entry keeps rd alive: its id is not reused)
         return tk, f"{serial}.{b}"
 
     def rec(self, r):
@@ -153,9 +176,14 @@ class World:
 
     def enc_rec(self, r) -> str:
         """a record in wire order, as the model's parser input"""
-        name, ttl, rd = self.rec(r)
-        tk, d = self.rdkey(rd.rdtype, rd.covers(), rd)
-        return f"{self.nidx(name)}:{tk}:{ttl}:{d}"
+        k = ("enc",) + tuple(r)
+        v = self.cache.get(k)
+        if v is None:
+            name, ttl, rd = self.rec(r)
+            tk, d = self.rdkey(rd.rdtype, rd.covers(), rd)
+            v = f"{self.nidx(name)}:{tk}:{ttl}:{d}"
+            self.cache[k] = v
+        return v
 
     def enc_wire_msg(self, md, m) -> str:
         q = "-"
@@ -215,7 +243,7 @@ def full_dump(zone, origin):
         n = name.derelativize(origin).canonicalize().to_text()
         for rds in node.rdatasets:
             for rd in rds:
-                out.add((n, int(rds.rdtype), int(rds.covers), int(rds.ttl), rd.to_digestable(origin).hex()))
+                out.add((n, int(rds.rdtype), int(rds.covers), int(rds.ttl), digest(rd, origin)))
     return out
 
 
@@ -224,7 +252,7 @@ def records_dump(w: World, recs):
     for r in recs:
         name, ttl, rd = w.rec(r)
         n = name.derelativize(w.origin).canonicalize().to_text()
-        out.add((n, int(rd.rdtype), int(rd.covers()), ttl, rd.to_digestable(w.origin).hex()))
+        out.add((n, int(rd.rdtype), int(rd.covers()), ttl, digest(rd, w.origin)))
     return out
 
 
@@ -423,6 +451,8 @@ def eval_case(ctx: Ctx, c: dict, collect=None):
         return eval_xfr(ctx, c, collect)
     if k == "glue":
         return eval_glue(ctx, c)
+    if k == "legacy":
+        return eval_legacy(ctx, c)
     if k == "mkq":
         return eval_mkq(ctx, c)
     if k == "scmp":
@@ -553,6 +583,71 @@ def eval_xfr(ctx: Ctx, c: dict, collect=None):
         collect.append((res, after != before))
     if after != before or locked or res == "hang":
         ZC.drop()
+
+
+def eval_legacy(ctx: Ctx, c: dict):
+    """the classic route: dns.zone.from_xfr(dns.query.xfr(where, zone, "AXFR", serial=…)) with a scripted socket.
+    dns.query.xfr runs an Inbound over a dummy transaction manager and always hands it a serial (0 by default)."""
+    rep = {"kind": "legacy", "case": c}
+    w = World(c["origin"], c["rel"])
+    fake = {"req": {"rdtype": "AXFR", "serial": None, "udp": False}, "via": "wire"}
+    msgs, wires = build_messages(w, dict(fake, msgs=c["msgs"]))
+
+    def fake_make_socket(af, type, source=None):
+        return FakeTCP(wires)
+
+    saved = dns.query.make_socket
+    dns.query.make_socket = fake_make_socket
+    signal.signal(signal.SIGALRM, _alarm)
+    signal.alarm(3)
+    res, zone = "ok", None
+    kw = {} if c["serial"] == "default" else {"serial": c["serial"]}
+    try:
+        zone = dns.zone.from_xfr(dns.query.xfr("192.0.2.53", w.origin, "AXFR", relativize=c["rel"], **kw),
+                                 zone_factory=ZK[c["zk"]], relativize=c["rel"])
+    except Hang:
+        res = "hang"
+    except BaseException as e:  # noqa: BLE001
+        res = "err:" + err_class(e)
+    finally:
+        signal.alarm(0)
+        dns.query.make_socket = saved
+    ser = 0 if c["serial"] == "default" else c["serial"]
+    keys = w.zone_keys(zone) if zone is not None else set()
+    names_first = [w.enc_wire_msg(md, m) for md, m in zip(c["msgs"], msgs)]
+    op = (f"c13.run fix=1 tr=0 P=1 E=eof o={enc_labels(w.eff.labels)} t={int(AXFR)} s={ser} u=0 N=%s Z=- "
+          f"M={'|'.join(names_first) or '-'}")
+    op = op % w.enc_names()
+    if res != "hang":
+        ctx.corr(op, f"T= R={res} Z={'=' if not keys else w.enc_keys(keys)}", c)
+    exp = c.get("expect", {})
+    ctx.count(f"legacy.{exp.get('what', '?')}.{res}")
+    what = f"from_xfr(xfr(AXFR, serial={c['serial']})) {c['zk']}{'/rel' if c['rel'] else ''} {exp.get('what')}: "
+    if res == "hang":
+        ctx.fail("C13/legacy-xfr/hang", what + "did not return within 3 s", rep)
+    if exp.get("class") == "valid":
+        if res != "ok":
+            ctx.fail("C13/legacy-xfr/valid-raises", what + f"a valid AXFR raised {res}", rep)
+        elif full_dump(zone, w.origin) != records_dump(w, exp["target"]):
+            ctx.fail("C13/legacy-xfr/zone-differs", what + "the zone built differs from the version sent", rep)
+    elif exp.get("class") == "must-raise" and res == "ok":
+        ctx.fail("C13/legacy-xfr/fault-accepted", what + "accepted without error", rep)
+
+
+def legacy_cases(rng, st):
+    """the classic dns.query.xfr + dns.zone.from_xfr route around a valid AXFR"""
+    case, recs, o = st["case"], st["recs"], st["o"]
+    # (dns.zone.from_xfr writes z.nodes directly: only the plain dns.zone.Zone supports that)
+    base = {"kind": "legacy", "zk": "plain", "rel": case["rel"], "origin": o}
+    tser = st["chain"][-1].serial
+    for ser in ["default", rng.choice([0, tser, (tser + 1) % 2**32, 1, 2**31, 2**32 - 1])]:
+        msgs = to_msgs(rng, recs, rand_sizes(rng, len(recs), empties=False), "AXFR", o)
+        yield dict(base, serial=ser, msgs=msgs, expect={"class": "valid", "what": "axfr", "target": st["target"]})
+    if rng.chance(1, 2):
+        return
+    k = rng.range(1, len(recs) - 1)
+    yield dict(base, serial="default", msgs=to_msgs(rng, recs[:k], rand_sizes(rng, k, empties=False), "AXFR", o),
+               expect={"class": "must-raise", "what": "axfr-truncated"})
 
 
 def eval_glue(ctx: Ctx, c: dict):
@@ -1037,7 +1132,12 @@ def gen_stream(rng, small=False):
     if shape == "axfr":
         start = rng.choice(["v0", "empty", "v0"])
         v0recs = v0.records() if start == "v0" else []
-        case = base_case(rng, o, v0recs, "AXFR", None, False)
+        # an AXFR is unconditional: a serial handed to Inbound (the local one; 0 as the legacy dns.query.xfr route
+        # passes; equal to, behind, ahead of, or more than 2^31 away from the server's) must make no difference
+        aser = rng.choice([None, None, vn.serial, v0.serial, 0, (vn.serial + 1) % 2**32, (vn.serial - 1) % 2**32,
+                           (vn.serial + 2**31 - 1) % 2**32, (vn.serial + 2**31) % 2**32, (vn.serial + 2**31 + 1) % 2**32,
+                           (vn.serial - 2**31 + 1) % 2**32, 2**32 - 1])
+        case = base_case(rng, o, v0recs, "AXFR", aser, False)
         recs = axfr_stream(rng, vn, ooz)
         target = vn.records()
     elif shape == "axfr-style":
@@ -1071,6 +1171,8 @@ def valid_cases(rng, st, nrand, exhaustive=False):
         if sizes and sizes[0] == 0:
             sizes = sizes[1:]
         via = rng.choice(["wire", "wire", "wire", "sock"])
+        if rdtype == "AXFR" and case["req"]["serial"] is not None:
+            via = "wire"  # (make_query turns a serial into an IXFR query; Inbound is constructed directly here)
         yield with_msgs(case, to_msgs(rng, recs, sizes, rdtype, st["o"], group=(rdtype == "AXFR" and rng.chance(1, 2))), exp, via)
 
 
@@ -1338,6 +1440,10 @@ def generate(ctx: Ctx, scale: float, rng, budget_s: float):
                     c3 = dict(c, end=end)
                     ctx.case(case_key(c3))
                     eval_case(ctx, c3)
+        if st["shape"] == "axfr" and not any(r[0] in {x[0] for x in OOZ} for r in st["recs"]):
+            for c in legacy_cases(rng, st):
+                ctx.case(case_key(c))
+                eval_case(ctx, c)
         if st["shape"] == "ixfr" and i % 2 == 0:
             for c in glue_cases(rng, st):
                 ctx.case(case_key(c))
